@@ -3,9 +3,10 @@
    OCaml types; Z, N, positive and Flocq's binary_float stay Coq datatypes. *)
 From Coq Require Extraction.
 From Coq Require Import ExtrOcamlBasic.
-From F1 Require Import Base.Prelude Model.Verdict.
+From F1 Require Import Base.Prelude Base.F64 Model.Verdict Model.Distribution.
 
 Extraction Language OCaml.
 Extraction "model.ml"
   Z.add Z.mul Z.opp Z.of_nat Z.to_nat Z.compare
-  failed_verdict failed_verdict_pinned cli_returns_error verdict_spec_b.
+  failed_verdict failed_verdict_pinned cli_returns_error verdict_spec_b
+  dist_run dist_ok preg_run.
